@@ -55,12 +55,30 @@ def r2_r3(ctx):
     # whether, where and under which switch the parser decodes is decided by the template round trip with literally escaped
     # values (decoded per value exactly in gff3 dialects with escapes honoured; '+' stays '+')
     # encode condition on the print side is decided semantically by the printer template (every value encoded iff gff3 and not ignored)
-    from .c07 import r_printer, r_roundtrip
+    from .c07 import r_printer, r_roundtrip, r_literal
     r_printer(ctx, rule="R2")
     r_roundtrip(ctx, rule="R2")
+    r_literal(ctx, rule="R2")
     # ---- R3 the encoder, by abstract evaluation of Quoter.__missing__ on a symbolic character
     encoder_semantics(ctx)
     # per-character application to every value (and to values only) is decided by the printer template (R2)
+
+
+def _fresh_quoter(ctx):
+    """parser.Quoter() evaluated: the encoder object with whatever its constructor sets up, and an empty cache."""
+    from ..absint import Interp, TypeVal, Trace, Opaque, Unsupported
+    it = Interp(ctx)
+    it.construct_real |= {"parser.Quoter"}
+    it.choices, it.ptr, it.pending = [], 0, []
+    it.trace = Trace()
+    it.depth = 0
+    try:
+        o = it.call_type("parser.Quoter", [], {}, ast.Constant(value=None, lineno=0, col_offset=0))
+    except Unsupported as e:
+        ctx.require(False, "parser.Quoter() outside the analysable subset: %s" % e)
+    ctx.require(isinstance(o, Opaque), "parser.Quoter() does not construct")
+    o.attrs.setdefault("__items__", {})
+    return o
 
 
 def encoder_semantics(ctx, rule="R3"):
@@ -70,8 +88,9 @@ def encoder_semantics(ctx, rule="R3"):
     q = require_func(ctx, "parser.Quoter.__missing__")
     bname = [p for p in q.params if p != "self"][0]
     try:
-        # self: the (still empty) cache, a mapping -- __missing__ runs exactly when the character is not in it yet
-        traces = Interp(ctx).run(q, {bname: Sym("b", "str", None)}, self_obj={}, copy_self=True)
+        # self: a freshly constructed encoder (its own constructor evaluated), whose cache is still empty -- __missing__ runs
+        # exactly when the character is not in it yet
+        traces = Interp(ctx).run(q, {bname: Sym("b", "str", None)}, self_obj=_fresh_quoter(ctx), copy_self=True)
     except Unsupported as e:
         ctx.require(False, "encoder outside the analysable subset: %s" % e)
     rows = []
@@ -150,7 +169,7 @@ def encoder_semantics(ctx, rule="R3"):
             if not same(res):
                 bad.append("any other character -> %s" % shown)
         stores = [e for e in t.events if e[0] == "setitem"]
-        okc = all((repr(e[3]) == repr(res)) and (same(e[2]) or e[2] == exact) for e in stores)
+        okc = all((repr(e[3]) == repr(res)) and (same(e[2]) or e[2] == exact) for e in stores if not (isinstance(e[2], str) and e[2].startswith("__")))
         if not okc:
             bad.append("cache store differs from the returned value")
     ctx.ob(rule, not bad, "a reserved character becomes '%' + two upper-case hex digits of its code point, every other character is passed through unchanged, "
@@ -158,7 +177,7 @@ def encoder_semantics(ctx, rule="R3"):
            sig="encoder outcomes: %d character(s) escaped as %%XX, all others unchanged" % len(encoded) if not bad else "encoder: %s" % "; ".join(bad[:3]))
     # the cache outlives a change of the module switch: what is cached must not depend on it
     try:
-        flipped = Interp(ctx, overrides={("constants", "ignore_url_escape_characters"): True}).run(q, {bname: Sym("b", "str", None)}, self_obj={}, copy_self=True)
+        flipped = Interp(ctx, overrides={("constants", "ignore_url_escape_characters"): True}).run(q, {bname: Sym("b", "str", None)}, self_obj=_fresh_quoter(ctx), copy_self=True)
     except Unsupported as e:
         ctx.require(False, "encoder outside the analysable subset: %s" % e)
     sig_of = lambda ts: sorted((repr([(repr(d[0]), d[1]) for d in t.decisions]), repr(t.result[1:])) for t in ts)
@@ -288,9 +307,7 @@ def malformed(ctx):
     from ..absint import Unsupported, is_strlike
     from .c07 import regex_patterns
     sk = require_func(ctx, "parser._split_keyvals")
-    pat = None
-    for k, v in regex_patterns(ctx, "parser").items():
-        pat = (k, v)
+    pat = dict(regex_patterns(ctx, "parser"))       # every compiled pattern of the parser module, by name
     base = {"leading semicolon": False, "trailing semicolon": False, "quoted GFF2 values": False, "field separator": ";",
             "keyval separator": "=", "multival separator": ",", "fmt": "gff3", "repeated keys": False, "order": []}
     gtf = dict(base, **{"fmt": "gtf", "quoted GFF2 values": True, "field separator": "; ", "keyval separator": " ", "trailing semicolon": True})
